@@ -108,16 +108,32 @@ var bareCfg = zapcore.EncoderConfig{EncodeTime: zapcore.EpochNanosTimeEncoder, E
 
 var cfgRepr = ref.Repr{Time: ref.TEpochNanos, Dur: ref.DNanos, Ordered: true}
 
+// userWrap is the kind of decorator users write: it registers itself for enabled entries and forwards
+// Write and With to the core it wraps.
+type userWrap struct{ zapcore.Core }
+
+func (w userWrap) With(fs []zapcore.Field) zapcore.Core { return userWrap{w.Core.With(fs)} }
+func (w userWrap) Check(e zapcore.Entry, ce *zapcore.CheckedEntry) *zapcore.CheckedEntry {
+	if w.Enabled(e.Level) {
+		return ce.AddCore(e, w)
+	}
+	return ce
+}
+func (w userWrap) Write(e zapcore.Entry, fs []zapcore.Field) error { return w.Core.Write(e, fs) }
+
 func runProgram(r *ev.Run, id string, i int) {
 	g := gen.New(rng.For(r.Seed, "c07", i), gen.Opts{Hostile: i%4 == 0, UniqueKeys: i%2 == 0, MaxDepth: 2, MaxFields: 4, NoFaults: true, NoReflect: false})
 	rr := g.R
 	sinkJ, sinkC, sinkB := &rec.Sink{}, &rec.Sink{}, &rec.Sink{}
-	obsCore, logs := observer.New(zapcore.DebugLevel)
+	// every destination sits behind one switch: some derivations happen while everything is switched
+	// off (what a logger is derived with does not depend on what is enabled at that moment)
+	gate := zap.NewAtomicLevelAt(zapcore.DebugLevel)
+	obsCore, logs := observer.New(gate)
 	var core zapcore.Core = zapcore.NewTee(
-		zapcore.NewCore(zapcore.NewJSONEncoder(encCfg), sinkJ, zapcore.DebugLevel),
+		zapcore.NewCore(zapcore.NewJSONEncoder(encCfg), sinkJ, gate),
 		// an encoder without any entry key: its line is the node's context and call-site fields alone
-		zapcore.NewCore(zapcore.NewJSONEncoder(bareCfg), sinkB, zapcore.DebugLevel),
-		zapcore.NewCore(zapcore.NewConsoleEncoder(encCfg), sinkC, zapcore.DebugLevel),
+		zapcore.NewCore(zapcore.NewJSONEncoder(bareCfg), sinkB, gate),
+		zapcore.NewCore(zapcore.NewConsoleEncoder(encCfg), sinkC, gate),
 		obsCore,
 	)
 	comp := "tee(json,console,observer)"
@@ -188,7 +204,27 @@ func runProgram(r *ev.Run, id string, i int) {
 		n := &node{id: len(p.nodes), name: par.name, segs: append([]segment(nil), par.segs...), parent: par.id}
 		base := par.log
 		fromSugar := par.sug != nil
-		switch k := rr.Intn(8); {
+		muted := rr.P(1, 5)
+		if muted {
+			gate.SetLevel(zapcore.FatalLevel + 1)
+			defer gate.SetLevel(zapcore.DebugLevel)
+			r.Count("derivations_while_everything_is_switched_off", 1)
+		}
+		kinds := 8
+		if !strings.Contains(comp, "hooks(") {
+			kinds = 9 // a forwarding decorator needs cores whose Write does all the work
+		}
+		switch k := rr.Intn(kinds); {
+		case k == 8:
+			// an ordinary user-defined core decorator (registers itself, forwards Write) put on afterwards
+			n.how = "WithOptions(WrapCore(user decorator))"
+			wrap := zap.WrapCore(func(c zapcore.Core) zapcore.Core { return userWrap{c} })
+			if fromSugar {
+				n.sug = par.sug.WithOptions(wrap)
+			} else {
+				n.log = base.WithOptions(wrap)
+			}
+			r.Count("derivations_adding_a_user_decorator", 1)
 		case k == 0 && fromSugar: // Desugar
 			n.log, n.how = par.sug.Desugar(), "Desugar"
 		case k == 0:
@@ -239,6 +275,9 @@ func runProgram(r *ev.Run, id string, i int) {
 			} else {
 				n.log = base.With(segZap(s)...)
 			}
+		}
+		if muted {
+			n.how += " [derived while every destination was switched off]"
 		}
 		p.trace = append(p.trace, fmt.Sprintf("v%d: n%d = n%d.%s", p.version, n.id, par.id, n.how))
 		p.nodes = append(p.nodes, n)
